@@ -21,6 +21,10 @@ def run(chk):
     codelemmas.encoder_order(chk, c, 'C02-K1')
     codelemmas.ordinal_naming(chk, c, 'C02-K2')
     codelemmas.open_ended(chk, c, 'C02-K3')
+    chk.rule('C02-M', 'the header convention is applied by parser and encoder alike and to MSH only: the parser keeps the field separator '
+                      'as MSH-1 exactly where the encoder drops it again (same facts as C01-M); a second segment treated that '
+                      'way on one side only shifts every one of its positions by one')
+    codelemmas.msh_pairing(chk, c, 'C02-M')
     codelemmas.separators(chk, c, 'C02-K4')
     chk.rule('C02-K5', 'the element\'s own HL7 version is passed to every table lookup / datatype test on the build, encode and parse paths')
     forwarding.check_forwarding(chk, c, 'C02-K5', ('version',), check_own=True,
